@@ -10,6 +10,8 @@ modes
   fields  generated fields x group assignments -> cfdm.write(group=True/False), cfdm.read,
           re-write; observed: acceptance, layouts (netCDF4 raw view), equality, recorded groups
   names   the netCDF-name/group accessors of cfdm.mixin.netcdf
+  gattrs  same-named group attributes at several nested levels (hand-encoded and cfdm-written),
+          read with both backends, re-written grouped and flat
   fterms  a bounded parametric vertical coordinate, its bounds and terms in a non-root group; the
           written files are stripped of the term variables' own `bounds` attributes (another
           producer's file: CF 7.1 route only) and read back, grouped against flat
@@ -215,12 +217,66 @@ def run_refs(case):
             if pr.get("coords") is not None:
                 var.delncattr("coordinates")
             out["probes"].append(row)
+        # the same tree as a file, every probe attribute set at once, flattened (lax) through the
+        # netCDF4 and the h5netcdf backend
+        if case.get("scratch"):
+            out["backends"] = flatten_file_backends(case, case["scratch"])
         return out
     finally:
         try:
             src.close()
         except Exception:
             pass
+
+
+def flatten_file_backends(case, scratch):
+    import h5netcdf
+    from cfdm.read_write.netcdf.flatten import netcdf_flatten
+
+    fn = os.path.join(scratch, f"c11_refs_{os.getpid()}_{case['i']}.nc")
+    nc = netCDF4.Dataset(fn, "w", format="NETCDF4")
+    build_dataset(nc, case["tree"])
+    for pr in case["probes"]:
+        var = group_at(nc, pr["group"]).variables[pr["var"]]
+        var.setncattr(pr["attr"], pr["value"])
+        if pr.get("coords") is not None and pr["attr"] != "coordinates":
+            var.setncattr("coordinates", pr["coords"])
+    nc.close()
+    res = {}
+    for backend in ("netCDF4", "h5netcdf"):
+        src = dst = None
+        try:
+            src = netCDF4.Dataset(fn, "r") if backend == "netCDF4" else h5netcdf.File(fn, "r")
+            dst = mem_dataset("bk")
+            netcdf_flatten(src, dst, strict=False, omit_data=True)
+            vmap = dst.getncattr("_flattener_variable_map")
+            dmap = dst.getncattr("_flattener_dimension_map")
+            vmap = [vmap] if isinstance(vmap, str) else list(vmap)
+            dmap = [dmap] if isinstance(dmap, str) else list(dmap)
+            ab = dict(x.split(": ") for x in vmap)
+            res[backend] = {
+                "varmap": vmap, "dimmap": dmap,
+                "dimsizes": {d: len(dst.dimensions[d]) for d in dst.dimensions},
+                "vardims": {ab[v]: list(dst.variables[v].dimensions) for v in dst.variables},
+                "refattrs": {ab[v]: {a: str(dst.variables[v].getncattr(a)) for a in dst.variables[v].ncattrs()}
+                             for v in dst.variables if dst.variables[v].ncattrs()},
+            }
+        except Exception as e:  # noqa
+            import traceback
+            res[backend] = {"exc": type(e).__name__, "msg": str(e)[:200], "tb": traceback.format_exc()[-700:],
+                            "attrs": [[pr["attr"], pr["value"]] for pr in case["probes"]]}
+        finally:
+            for x in (dst, src):
+                try:
+                    if x is not None:
+                        x.close()
+                except Exception:
+                    pass
+    try:
+        os.remove(fn)
+    except OSError:
+        pass
+    return res
 
 
 def run_coord(case, scratch):
@@ -253,6 +309,28 @@ def run_coord(case, scratch):
                     + [alias_probe("field data", lambda: f.data.array)] if x]
     out["dimcoord_values_again"] = [dc.data.array.tolist() for dc in dcs.values()]
     out["axis_ncdim"] = f.domain_axes(todict=True)[axes[0]].nc_get_dimension(None) if axes else None
+    out["shape"] = list(f.shape)
+    # the same file through the h5netcdf backend
+    h5 = {}
+    try:
+        hs = cfdm.read(fn, netcdf_backend="h5netcdf")
+        hit5 = [x for x in hs if x.nc_get_variable(None) == want]
+        h5["nfields"] = len(hs)
+        if len(hit5) == 1:
+            h = hit5[0]
+            ax5 = h.get_data_axes()
+            d5 = h.dimension_coordinates(filter_by_axis=(ax5[0],), axis_mode="exact", todict=True) if ax5 else {}
+            h5["dimcoord"] = [dc.nc_get_variable(None) for dc in d5.values()]
+            h5["dimcoord_values"] = [dc.data.array.tolist() for dc in d5.values()]
+            h5["shape"] = list(h.shape)
+            h5["axis_ncdim"] = h.domain_axes(todict=True)[ax5[0]].nc_get_dimension(None) if ax5 else None
+            h5["equals"] = eq(h, f) is True and eq(f, h) is True
+        else:
+            h5["missing"] = [x.nc_get_variable(None) for x in hs]
+    except Exception as e:  # noqa
+        h5["exc"] = type(e).__name__
+        h5["msg"] = str(e)[:200]
+    out["h5"] = h5
     os.remove(fn)
     return out
 
@@ -449,6 +527,15 @@ def run_fields(case, scratch):
             elif eq(g, f0) is not True and r["equals_orig"] is True:
                 out[tag + "_alias"] = ["the field no longer equals the original after its arrays were overwritten"]
             res[tag + "_field"] = g
+            if group:
+                try:
+                    hs = cfdm.read(fn, netcdf_backend="h5netcdf")
+                    r["h5_nfields"] = len(hs)
+                    if len(hs) == 1:
+                        r["h5_equals"] = eq(hs[0], f0) is True and eq(f0, hs[0]) is True
+                        r["h5_names"] = names_of(hs[0]) == r["names"]
+                except Exception as e:  # noqa
+                    r["h5_exc"] = type(e).__name__ + ": " + str(e)[:200]
         res[tag] = r
     out["unchanged"] = eq(f, f0) is True and names_of(f) == out["orig"]
     gG, gF = res.pop("G_field", None), res.pop("F_field", None)
@@ -599,6 +686,128 @@ def run_fterms(case, scratch):
     return out
 
 
+# --------------------------------------------------------------------------- group attributes at several levels
+GA_NAMES = ("comment", "source", "model_id", "experiment")
+
+
+def ga_view(f):
+    return {
+        "ncvar": f.nc_get_variable(None),
+        "props": {k: str(f.get_property(k)) for k in GA_NAMES if f.has_property(k)},
+        "group_attrs": sorted(f.nc_group_attributes()),
+        "global_attrs": sorted(k for k in f.nc_global_attributes() if k in GA_NAMES),
+    }
+
+
+def ga_levels(fn):
+    """attributes (of the names under test) of every group of a file, and of every variable"""
+    lay = raw_layout(fn)
+    nc = netCDF4.Dataset(fn, "r")
+    out = {"groups": {p: {k: v for k, v in g["attrs"].items() if k in GA_NAMES} for p, g in lay.items()}, "vars": {}}
+
+    def walk(g):
+        for v in g.variables.values():
+            out["vars"][(g.path.rstrip("/") + "/" + v.name) if g.path != "/" else v.name] = {
+                k: str(v.getncattr(k)) for k in v.ncattrs() if k in GA_NAMES}
+        for c in g.groups.values():
+            walk(c)
+
+    walk(nc)
+    nc.close()
+    return out
+
+
+def ga_read(fn, backend):
+    try:
+        fs = cfdm.read(fn, netcdf_backend=backend)
+    except Exception as e:  # noqa
+        return {"exc": type(e).__name__, "msg": str(e)[:200]}, []
+    return {"fields": sorted((ga_view(f) for f in fs), key=lambda x: str(x["ncvar"]))}, fs
+
+
+def run_gattrs(case, scratch):
+    """Same-named group attributes at 2-4 nested levels.  kind 'hand': netCDF4-python file (levels:
+    depth -> attributes, depth 0 = global; variables: depth and own attributes).  kind 'cfdm':
+    fields written together, field j in chain[:depth_j], with properties and the names marked as
+    group attributes."""
+    out = {"i": case["i"]}
+    base = os.path.join(scratch, f"c11_ga_{os.getpid()}_{case['i']}")
+    fn = base + ".nc"
+    chain = case["chain"]
+    if case["kind"] == "hand":
+        nc = netCDF4.Dataset(fn, "w", format="NETCDF4")
+        nc.Conventions = "CF-1.8"
+        nc.createDimension("x", 3)
+        groups = [nc]
+        for name in chain:
+            groups.append(groups[-1].createGroup(name))
+        for d, at in case["levels"].items():
+            for k, v in at.items():
+                groups[int(d)].setncattr(k, v)
+        for j, v in enumerate(case["variables"]):
+            var = groups[v["depth"]].createVariable(v["name"], "f8", ("x",))
+            var[...] = np.arange(3.0) + 10 * j
+            var.standard_name = v["standard_name"]
+            var.units = "K"
+            for k, val in v["attrs"].items():
+                var.setncattr(k, val)
+        nc.close()
+        originals = None
+    else:
+        originals = []
+        for j, v in enumerate(case["variables"]):
+            f = cfdm.Field(properties={"standard_name": v["standard_name"], "units": "K"})
+            f.nc_set_variable(v["name"])
+            ax = f.set_construct(cfdm.DomainAxis(3))
+            f.domain_axes(todict=True)[ax].nc_set_dimension("x")
+            f.set_data(cfdm.Data(np.arange(3.0) + 10 * j), axes=[ax])
+            for k, val in v["attrs"].items():
+                f.set_property(k, val)
+            f.nc_set_variable_groups(chain[:v["depth"]])
+            if v.get("group_attrs"):
+                f.nc_set_group_attributes({k: None for k in v["group_attrs"]})
+            originals.append(f)
+        try:
+            cfdm.write(originals, fn)
+        except Exception as e:  # noqa
+            out["write_exc"] = type(e).__name__ + ": " + str(e)[:200]
+            return out
+        out["orig"] = sorted((ga_view(f) for f in originals), key=lambda x: str(x["ncvar"]))
+    out["file"] = ga_levels(fn)
+    out["read"], fs = ga_read(fn, "netCDF4")
+    out["read_h5"], _ = ga_read(fn, "h5netcdf")
+    if originals is not None and fs:
+        byname = {f.nc_get_variable(None): f for f in fs}
+        out["equals_orig"] = [o.nc_get_variable(None) in byname and eq(byname[o.nc_get_variable(None)], o) is True
+                              and eq(o, byname[o.nc_get_variable(None)]) is True for o in originals]
+    # write what was read again, grouped and flat; read both
+    for tag, group in (("G2", True), ("F2", False)):
+        fn2 = f"{base}_{tag}.nc"
+        r = {}
+        try:
+            if not fs:
+                raise ValueError("nothing read")
+            cfdm.write(fs, fn2, group=group)
+            r["file"] = ga_levels(fn2)
+            r["read"], fs2 = ga_read(fn2, "netCDF4")
+            by2 = {}
+            for x in fs2:
+                by2.setdefault(x.identity(), []).append(x)
+            r["equals_first"] = [len(by2.get(x.identity(), [])) == 1 and eq(by2[x.identity()][0], x) is True for x in fs]
+        except Exception as e:  # noqa
+            r["exc"] = type(e).__name__ + ": " + str(e)[:200]
+        out[tag] = r
+        try:
+            os.remove(fn2)
+        except OSError:
+            pass
+    try:
+        os.remove(fn)
+    except OSError:
+        pass
+    return out
+
+
 def run_names(case):
     out = {"i": case["i"]}
     x = cfdm.DimensionCoordinate()
@@ -632,6 +841,7 @@ def main():
     for case in payload["cases"]:
         try:
             if mode == "refs":
+                case["scratch"] = scratch
                 row = run_refs(case)
             elif mode == "coord":
                 row = run_coord(case, scratch)
@@ -641,6 +851,8 @@ def main():
                 row = run_names(case)
             elif mode == "fterms":
                 row = run_fterms(case, scratch)
+            elif mode == "gattrs":
+                row = run_gattrs(case, scratch)
             else:
                 row = {"i": case["i"], "harness_err": "unknown mode"}
         except Exception as e:  # noqa
